@@ -77,7 +77,9 @@ def dict_verdict(d, ignore_lattice, require_lattice):
         return 'ill-typed', None
     if not all(isinstance(v, str) for v in objects) or not all(isinstance(v, str) for v in properties):
         return 'invalid', 'non_string'
-    if not all(_seq(r) and all(isinstance(i, int) and not isinstance(i, bool) for i in r) for r in context):
+    # a row of column indexes is a sized collection of ints: list, tuple - or a set (no repeats possible)
+    if not all(isinstance(r, (list, tuple, set, frozenset))
+               and all(isinstance(i, int) and not isinstance(i, bool) for i in r) for r in context):
         return 'ill-typed', None
     lattice = d.get('lattice')
     if lattice is not None and not _seq(lattice):
@@ -366,7 +368,19 @@ def _ops_dict():
         for k in ('objects', 'properties'):
             if k in d and isinstance(d[k], list): d[k] = tuple(d[k])
         return d
+    def rows_sets(d, r):
+        if _seq(d.get('context')): d['context'] = [set(x) if r.random() < .7 else x for x in d['context']]
+        return d
+    def rows_frozensets(d, r):
+        if _seq(d.get('context')): d['context'] = tuple(frozenset(x) for x in d['context'])
+        return d
+    def rows_tuples(d, r):
+        if _seq(d.get('context')): d['context'] = tuple(tuple(x) for x in d['context'])
+        return d
     return dict(locals())
+
+
+TYPE_OPS = ('tuples', 'rows_sets', 'rows_frozensets', 'rows_tuples')      # applied after the others
 
 
 OPS_D = _ops_dict()
@@ -437,7 +451,7 @@ def run_case(concepts, case, spec):
     if d is RAISED:
         return
     d = {k: (list(v) if isinstance(v, tuple) else v) for k, v in d.items()}
-    for op in case['ops']:
+    for op in sorted(case['ops'], key=lambda o: o in TYPE_OPS):      # stable: container types change last
         d = OPS_D[op](d, rng)
     COL.sample({'ops': case['ops'], 'input': d})
     call(Context.fromdict, copy.deepcopy(d))
